@@ -75,9 +75,41 @@ def firstcall():
     print('@@' + json.dumps(out), flush=True)
 
 
+def firstformat():
+    """deeprun.py firstformat <limit> <depth> <repo>: the first formatting call of the process works on input nested
+    `depth` deep under recursion limit `limit` (whatever is initialised lazily at first use is initialised THERE, possibly
+    half way when the stack runs out); afterwards ordinary statements are formatted with a generous limit and printed."""
+    limit, d = int(sys.argv[2]), int(sys.argv[3])
+    sys.path.insert(0, sys.argv[4])
+    import sqlparse
+    from sqlparse.exceptions import SQLParseError
+    out = {'kind': 'firstformat', 'depth': d, 'entry': 'format_aligned', 'limit': limit, 'outcome': 'ok', 'roundtrip': True, 'later': 'ok'}
+    deep = 'select (' * d + 'select a and b' + ')' * d
+    sys.setrecursionlimit(limit)
+    try:
+        sqlparse.format(deep, reindent_aligned=True)
+    except SQLParseError:
+        out['outcome'] = 'SQLParseError'
+    except RecursionError:
+        out['outcome'] = 'RecursionError'
+    except BaseException as ex:  # noqa
+        out['outcome'] = type(ex).__name__
+    sys.setrecursionlimit(3000)
+    ref = 'select a from b join c on x = y where c and d or e group by e order by f; update t set a = 1 where b in (select 2 from u)'
+    try:
+        out['digest'] = [sqlparse.format(ref, reindent=True), sqlparse.format(ref, reindent_aligned=True),
+                         sqlparse.format(ref, reindent=True, comma_first=True, keyword_case='upper')]
+    except BaseException as ex:  # noqa
+        out['later'] = type(ex).__name__
+        out['digest'] = []
+    print('@@' + json.dumps(out), flush=True)
+
+
 def main():
     if sys.argv[1] == 'firstcall':
         return firstcall()
+    if sys.argv[1] == 'firstformat':
+        return firstformat()
     limit = int(sys.argv[1])
     cases = json.loads(sys.argv[2])
     sys.path.insert(0, sys.argv[3])
